@@ -21,7 +21,15 @@ static void setup (int role) {
 static nsync_time any_time (void) { nsync_time t; t.tv_sec = vp_nondet_i64 (); t.tv_nsec = vp_nondet_i64 (); return t; }
 
 void h_sem_p (void) { setup (0); nsync_mu_semaphore_p (&the_sem); VP_CANARY (); }
-void h_sem_p_deadline (void) { int r; setup (0); r = nsync_mu_semaphore_p_with_deadline (&the_sem, any_time ()); (void) r; VP_CANARY (); }
+void h_sem_p_deadline (void) {
+	int r;
+	nsync_time d = any_time ();
+	setup (0);
+	vp_s.finite_deadline = !(d.tv_sec == nsync_time_no_deadline.tv_sec && d.tv_nsec == nsync_time_no_deadline.tv_nsec);
+	r = nsync_mu_semaphore_p_with_deadline (&the_sem, d);
+	(void) r;
+	VP_CANARY ();
+}
 void h_sem_v (void) { setup (1); nsync_mu_semaphore_v (&the_sem); VP_CANARY (); }
 
 /* C15 (c): count 0 and nobody posts, the clock has reached the deadline on entry  ==>  ETIMEDOUT in the first
@@ -35,6 +43,7 @@ void h_sem_prompt (void) {
 	*(uint32_t *) &the_sem = 0;
 	vp_s.no_posts = 1;
 	vp_s.kernel_prompt = 1;
+	vp_s.finite_deadline = 1;
 	__CPROVER_assume (VP_NORM (d));
 	__CPROVER_assume (!(d.tv_sec == nsync_time_no_deadline.tv_sec && d.tv_nsec == nsync_time_no_deadline.tv_nsec));
 	clock_gettime (CLOCK_REALTIME, &now);
